@@ -48,15 +48,15 @@ type Call struct {
 	Loosen bool `json:"loosen,omitempty"`
 
 	// run_traceroute / http_handler
-	Protocol    string `json:"protocol,omitempty"`
-	Method      string `json:"method,omitempty"`
-	WantV6      bool   `json:"wantV6,omitempty"`
-	Queries     int    `json:"queries,omitempty"`
-	E2E         int    `json:"e2e,omitempty"`
-	ReverseDNS  bool   `json:"reverseDNS,omitempty"`
-	PublicIP    bool   `json:"publicIP,omitempty"`
+	Protocol   string `json:"protocol,omitempty"`
+	Method     string `json:"method,omitempty"`
+	WantV6     bool   `json:"wantV6,omitempty"`
+	Queries    int    `json:"queries,omitempty"`
+	E2E        int    `json:"e2e,omitempty"`
+	ReverseDNS bool   `json:"reverseDNS,omitempty"`
+	PublicIP   bool   `json:"publicIP,omitempty"`
 	// BoolStyle: how the HTTP query spells its booleans: 0 true/false, 1 "1"/"0", 2 TRUE/FALSE, 3 True/False
-	BoolStyle int `json:"boolStyle,omitempty"`
+	BoolStyle   int    `json:"boolStyle,omitempty"`
 	SkipPrivate bool   `json:"skipPrivate,omitempty"`
 	RawQuery    string `json:"rawQuery,omitempty"` // http_handler: query string used verbatim when set
 
@@ -169,7 +169,7 @@ type Listener struct {
 	// FinAfterUs > 0: the target closes its side that long after its SYN-ACK: a FIN|ACK without SACK
 	// blocks arrives while probes are out (it keeps answering probes with duplicate ACKs afterwards)
 	FinAfterUs int64 `json:"finAfterUs,omitempty"`
-	TruncTS       bool   `json:"truncTS,omitempty"`
+	TruncTS    bool  `json:"truncTS,omitempty"`
 }
 
 // HTTPPlan scripts one public-IP provider (by position in the repo's provider list).
@@ -191,9 +191,14 @@ type Knobs struct {
 	PacketIDBase    uint32 `json:"packetIDBase,omitempty"`
 	SetPacketIDBase bool   `json:"setPacketIDBase,omitempty"`
 	EchoIDBase      uint32 `json:"echoIDBase,omitempty"`
-	SetEchoIDBase   bool   `json:"setEchoIDBase,omitempty"`
-	RandSeed        int64  `json:"randSeed,omitempty"`
-	FrameNoise      int    `json:"frameNoise,omitempty"` // frames synthesised around each installed filter's configuration (C12)
+	// SetTCPSeq: the TCP SYN driver's sequence numbers come from a source that starts at TCPSeqBase
+	// (default mode: the run's one sequence number; Paris mode: the first probe's, later probes get
+	// values spread over the sequence space) instead of the random generator
+	SetTCPSeq     bool   `json:"setTCPSeq,omitempty"`
+	TCPSeqBase    uint32 `json:"tcpSeqBase,omitempty"`
+	SetEchoIDBase bool   `json:"setEchoIDBase,omitempty"`
+	RandSeed      int64  `json:"randSeed,omitempty"`
+	FrameNoise    int    `json:"frameNoise,omitempty"` // frames synthesised around each installed filter's configuration (C12)
 	// free-running mode only: 1-based ordinals of the NewSourceSink calls that fail (each with its own
 	// sentinel); FreeFailAll fails every construction
 	FreeFailNew []int `json:"freeFailNew,omitempty"`
@@ -207,7 +212,7 @@ type Knobs struct {
 	// free-running mode only: SACK targets negotiate TCP timestamps and their clock ticks between
 	// the acknowledgements they send
 	FreeTimestamps bool `json:"freeTimestamps,omitempty"`
-	FreshCache  bool  `json:"freshCache,omitempty"` // false keeps the cache of the previous call in the same scenario only
+	FreshCache     bool `json:"freshCache,omitempty"` // false keeps the cache of the previous call in the same scenario only
 }
 
 // EngineScript drives common.TracerouteParallel / TracerouteSerial through a scripted driver.
